@@ -83,6 +83,7 @@ def gen_run(rnd, kind=None, tune=None, thin=None, maxP=10, special=None, integ=N
         cfg["m0_dtype"] = "readonly"          # the caller's array must only be read
     elif form < 0.35:
         cfg["m0_dtype"] = "view"              # a strided view into a larger array of the caller
+    cfg["diagnostic"] = rnd.random() < 0.25   # diagnostic mode (timed calls) on
     return cfg
 
 
@@ -213,6 +214,8 @@ def run_impl(cfg, workdir, sampler_hook=None, reuse=None, tag="run"):
                       mass_matrix=mass, integrator=cfg["integrator"])
     if "max_time" in cfg:
         kwargs["max_time"] = cfg["max_time"]
+    if cfg.get("diagnostic"):
+        kwargs["diagnostic_mode"] = True       # every call of the loop goes through a timing wrapper; nothing else may change
     if sampler_hook:
         sampler_hook(sampler, target, r)
     r.sampler = sampler
